@@ -140,18 +140,26 @@ func c02Pools(p *Prog, r *Report) []poolInfo {
 	return out
 }
 
+// isAppendStore: the stored pool value is built by append (growth or append-style removal) or by
+// re-slicing the pool (copy + truncate removal).
 func isAppendStore(st *ssa.Store) bool {
+	switch x := stripConv(st.Val).(type) {
+	case *ssa.Call:
+		b, ok := x.Common().Value.(*ssa.Builtin)
+		return ok && b.Name() == "append"
+	case *ssa.Slice:
+		return x.High != nil || x.Low != nil
+	}
+	return false
+}
+
+// appendGrows: append(pool, x) adding an element (as opposed to append(pool[:i], pool[i+1:]...) or
+// pool[:len-1], which remove).
+func appendGrows(st *ssa.Store) bool {
 	c, ok := stripConv(st.Val).(*ssa.Call)
 	if !ok {
 		return false
 	}
-	b, ok := c.Common().Value.(*ssa.Builtin)
-	return ok && b.Name() == "append"
-}
-
-// appendGrows: append(pool, x) adding an element (as opposed to append(pool[:i], pool[i+1:]...) which removes).
-func appendGrows(st *ssa.Store) bool {
-	c := stripConv(st.Val).(*ssa.Call)
 	_, isSlice := c.Common().Args[0].(*ssa.Slice)
 	return !isSlice
 }
